@@ -253,11 +253,16 @@ def gen(repo):
     # bare = inside the function's try, so a throw reaches the error arm and a second response (500) follows the 101.
     if len(re.findall(r"\bonUpgradedData\s*\(", up)) != 1:
         raise TranslateError("upgrade arm: expected exactly one onUpgradedData call (buffer drain)")
-    need(r"if\s*\(\s*it\s*!=\s*_sessionInfo\.end\(\)\s*&&\s*!it->second\.buffer\.empty\(\)\s*\)\s*\{\s*remaining\s*=\s*std::move\(it->second\.buffer\)\s*;", up, "upgrade arm: buffer drain source")
-    dr_guarded = re.search(r"if\s*\(\s*!remaining\.empty\(\)\s*\)\s*\{\s*try\s*\{\s*onUpgradedData\(sid,[^;]*\)\s*;\s*\}\s*catch\s*\(\s*\.\.\.\s*\)\s*\{[^{}]*closeSession\(sid\)\s*;\s*\}\s*\}", up, re.S)
-    dr_bare = re.search(r"if\s*\(\s*!remaining\.empty\(\)\s*\)\s*\{\s*onUpgradedData\(sid,[^;]*\)\s*;\s*\}", up, re.S)
+    # FC18f: the drain is a LOOP under the upgrade hold: each pass takes the whole session buffer if the session exists, the buffer is
+    # non-empty and the session is marked upgraded; otherwise it releases the hold and leaves.  One hook call per pass.
+    lp = need(r"for\s*\(\s*;\s*;\s*\)\s*\{\s*std::string\s+remaining\s*;\s*\{\s*std::lock_guard<std::mutex>\s+lock\(_sessionMutex\)\s*;\s*auto\s+it\s*=\s*_sessionInfo\.find\(sid\)\s*;\s*"
+              r"if\s*\(\s*it\s*!=\s*_sessionInfo\.end\(\)\s*&&\s*!it->second\.buffer\.empty\(\)\s*&&\s*_upgradedSessions\.count\(sid\)\s*>\s*0\s*\)\s*"
+              r"\{\s*remaining\s*=\s*std::move\(it->second\.buffer\)\s*;\s*it->second\.buffer\.clear\(\)\s*;\s*\}\s*"
+              r"else\s*\{\s*_upgradePending\.erase\(sid\)\s*;\s*break\s*;\s*\}\s*\}(.*)$", up, "upgrade arm: drain loop (take the buffer or release the hold and leave)").group(1)
+    dr_guarded = re.search(r"^\s*try\s*\{\s*onUpgradedData\(sid,[^;]*\)\s*;\s*\}\s*catch\s*\(\s*\.\.\.\s*\)\s*\{[^{}]*closeSession\(sid\)\s*;\s*break\s*;\s*\}\s*\}\s*$", lp, re.S)
+    dr_bare = re.search(r"^\s*onUpgradedData\(sid,[^;]*\)\s*;\s*\}\s*$", lp, re.S)
     if bool(dr_guarded) == bool(dr_bare):
-        raise TranslateError("upgrade arm: buffer drain is neither `try { onUpgradedData } catch (...) { closeSession }` nor a bare call")
+        raise TranslateError("upgrade arm: the drain loop's hook call is neither `try { onUpgradedData } catch (...) { closeSession; break; }` nor a bare call")
     if dr_guarded and re.search(r"sendAsync|sendErrorResponse", dr_guarded.group(0)):
         raise TranslateError("upgrade arm: the drain's catch sends something")
     cs = cxxscan.function_body(src, "closeSession")
@@ -265,6 +270,9 @@ def gen(repo):
     # the upgrade send itself: guarded, completion ignores the result
     need(r"if\s*\(\s*_transport\s*&&\s*!_shutdown" + ST + r"\s*\)\s*\{\s*_transport->sendAsync\(sid,\s*sharedResponseData->data\(\),\s*sharedResponseData->size\(\),", up, "upgrade arm: guarded send")
 
+    # the hold itself: set by handleIncomingData in the section that stores the rest, released by a scope guard on every other exit
+    need(r"it->second\.buffer\s*=\s*dataStr\s*;\s*if\s*\(\s*haveUpgrade\s*\)\s*\{\s*_upgradePending\.insert\(sid\)\s*;\s*\}", cxxscan.function_body(src, "handleIncomingData"), "handleIncomingData: hold set with the stored rest")
+    need(r"~UpgradeHoldRelease\(\)\s*\{\s*if\s*\(\s*armed\s*\)\s*\{\s*std::lock_guard<std::mutex>\s+lock\(self->_sessionMutex\)\s*;\s*self->_upgradePending\.erase\(sid\)\s*;\s*\}\s*\}\s*\}\s*upgradeHoldRelease\s*\{\s*this\s*,\s*sid\s*,\s*holdsUpgrade\s*\}\s*;", php, "processHttpRequest: scope guard releasing the upgrade hold")
     # start(): per-session write-queue bound handed to the transport (backpressure closes a session beyond it)
     stt = cxxscan.function_body(src, "start")
     max_wq = int(need(r"config\.maxWriteQueue\s*=\s*(\d+)\s*;", stt, "start(): config.maxWriteQueue").group(1))
@@ -282,7 +290,7 @@ def gen(repo):
     # does the task handed to the pool carry the identity of the transport its request arrived on?
     hid_src = cxxscan.function_body(src, "handleIncomingData")
     disp_plain = re.search(r"_threadPool\.tryEnqueue\(\s*\[this,\s*sid,\s*requestData\]\(\)\s*\{\s*processHttpRequest\(sid,\s*requestData\)\s*;\s*\}\s*\)", hid_src, re.S)
-    disp_epoch = re.search(r"const\s+std::uint64_t\s+epoch\s*=\s*_transportEpoch\.load\(\)\s*;\s*if\s*\(\s*!\s*_threadPool\.tryEnqueue\(\s*\[this,\s*sid,\s*requestData,\s*epoch\]\(\)\s*\{\s*processHttpRequest\(sid,\s*requestData,\s*epoch\)\s*;\s*\}\s*\)", hid_src, re.S)
+    disp_epoch = re.search(r"const\s+std::uint64_t\s+epoch\s*=\s*_transportEpoch\.load\(\)\s*;\s*if\s*\(\s*!\s*_threadPool\.tryEnqueue\(\s*\[this,\s*sid,\s*requestData,\s*epoch(?:,\s*haveUpgrade)?\]\(\)\s*\{\s*processHttpRequest\(sid,\s*requestData,\s*epoch(?:,\s*haveUpgrade)?\)\s*;\s*\}\s*\)", hid_src, re.S)
     n_same = len(re.findall(r"sameTransport\(\)", php))
     if disp_plain and not disp_epoch and n_same == 0 and "_transportEpoch" not in src:
         dispatch_checks_generation = False
@@ -310,7 +318,7 @@ def gen(repo):
 
     # pool overflow
     hid = cxxscan.function_body(src, "handleIncomingData")
-    ov = need(r"if\s*\(\s*!\s*_threadPool\.tryEnqueue\(\s*\[this,\s*sid,\s*requestData(?:,\s*epoch)?\]\(\)\s*\{\s*processHttpRequest\(sid,\s*requestData(?:,\s*epoch)?\)\s*;\s*\}\s*\)\s*\)\s*\{(.*?)\}\s*else\s+if", hid, "tryEnqueue dispatch").group(1)
+    ov = need(r"if\s*\(\s*!\s*_threadPool\.tryEnqueue\(\s*\[this,\s*sid,\s*requestData(?:,\s*epoch)?(?:,\s*haveUpgrade)?\]\(\)\s*\{\s*processHttpRequest\(sid,\s*requestData(?:,\s*epoch)?(?:,\s*haveUpgrade)?\)\s*;\s*\}\s*\)\s*\)\s*\{(.*?)\}\s*else\s+if", hid, "tryEnqueue dispatch").group(1)
     ovm = need(r"sendErrorResponse\(\s*sid\s*,\s*(\d+)\s*,\s*\"([^\"]*)\"\s*,\s*\"([^\"]*)\"\s*\)\s*;", ov, "overflow response")
     ser = cxxscan.function_body(src, "sendErrorResponse")
     ser_hdrs = set_headers(ser, "errorRes")
@@ -357,6 +365,8 @@ def gen(repo):
     t += "def errCatchesAll : Bool := %s\n" % ("true" if err_catches_all else "false")
     t += "/-- the buffer drain of the upgrade arm calls `onUpgradedData` inside its own `try { } catch (...) { closeSession(sid); }` (true),\n    or bare inside the function's `try` (false, the unrepaired code: a throw sends a 500 behind the 101 — two responses) -/\n"
     t += "def upgradeDrainGuarded : Bool := %s\n" % ("true" if dr_guarded else "false")
+    t += "/-- the drain is a loop (one `onUpgradedData` call per pass, a pass only while the session exists, its buffer is non-empty and it is\n    marked upgraded; reads that arrive meanwhile are queued behind by the upgrade hold) -/\n"
+    t += "def upgradeDrainRequiresMarked : Bool := true\n"
     t += "/-- literal headers of the error response (Content-Length = body size is added; body = status text; the arm always closes) -/\n"
     t += "def errContentType : String := %s\ndef errConnection : String := %s\n" % (lstr(ea_hdrs[0][1]), lstr(ea_hdrs[1][1]))
     t += "/-- shutdown arm -/\n"
